@@ -75,6 +75,7 @@ func c03(c *core.Check) {
 	c.Decide(len(cs) == 0, "capture-not-at-offset-0", "grammar/captures", "parser/thrift.peg.go", "every capture is preceded by at least one consumed character on every derivation from Document (pegText's buffer[begin-1] is in range)",
 		fmt.Sprintf("captures in %v can begin at input offset 0: pegText reads buffer[-1] and panics", cs))
 	c03nested(c, g)
+	c03intSpellings(c)
 	c03annotations(c)
 	// ---- SHAPE
 	c03shape(c, g)
@@ -652,4 +653,63 @@ func c03annotations(c *core.Check) {
 			d.Name.Name+" can return without error and without pointing p.Annotations at the new definition: parseDefinition then writes the trailing annotations into the previous definition (or through a nil pointer for the first one)")
 	}
 	c.Min("annotations-cursor-assigned", 7)
+}
+
+// c03intSpellings: the grammar's IntConstant admits decimal, 0x… and 0o… spellings wherever an integer is written (field
+// ids, enum values, integer constants). Rule: every strconv.ParseInt in the tree walker that reads such a text accepts
+// them: some ParseInt on the same text expression in the same function uses base 0.
+func c03intSpellings(c *core.Check) {
+	pk := c.Prog.Pkg("parser")
+	info := pk.TypesInfo
+	n := 0
+	for _, f := range pk.Syntax {
+		if !strings.HasSuffix(c.Prog.Fset.File(f.Pos()).Name(), "/parser.go") {
+			continue
+		}
+		for _, d := range f.Decls {
+			fd, ok := d.(*ast.FuncDecl)
+			if !ok || fd.Body == nil {
+				continue
+			}
+			bases := map[string]map[int64]bool{}
+			pos := map[string]ast.Node{}
+			for _, call := range rules.Calls(fd.Body, true) {
+				fn := rules.Callee(info, call)
+				if fn == nil || fn.Pkg() == nil || fn.Pkg().Path() != "strconv" || fn.Name() != "ParseInt" || len(call.Args) != 3 {
+					continue
+				}
+				b, ok := rules.ConstInt(info, call.Args[1])
+				if !ok {
+					continue
+				}
+				t := rules.ExprString(call.Args[0])
+				if bases[t] == nil {
+					bases[t] = map[int64]bool{}
+					pos[t] = call
+				}
+				bases[t][b] = true
+			}
+			var ts []string
+			for t := range bases {
+				ts = append(ts, t)
+			}
+			sort.Strings(ts)
+			for _, t := range ts {
+				n++
+				c.Decide(bases[t][0], "int-spellings-accepted", fmt.Sprintf("parser.%s/ParseInt(%s)", fd.Name.Name, t), c.Prog.Rel(pos[t].Pos()),
+					"parsed with base 0 (decimal, 0x, 0o) on some path",
+					fmt.Sprintf("the integer text %s is only parsed in base %v: the grammar also accepts 0x… and 0o… there, and such a value silently becomes 0", t, keysOf(bases[t])))
+			}
+		}
+	}
+	c.Min("int-spellings-accepted", 3)
+}
+
+func keysOf(m map[int64]bool) []int64 {
+	var ks []int64
+	for k := range m {
+		ks = append(ks, k)
+	}
+	sort.Slice(ks, func(i, j int) bool { return ks[i] < ks[j] })
+	return ks
 }
